@@ -206,7 +206,9 @@ existence tests, path `=`/`!=` string literal, path *op* number literal, `not()`
 nesting, the predicates may be `count(P) op n` / `n op count(P)`, `contains`/`starts-with`/
 `ends-with` of a string literal, `local-name()`, `local-name(P)` or a path `P` against a literal,
 `local-name() =`/`!=` `'lit'`, `local-name(P) =`/`!=` `'lit'`, and the filtered path may be
-parenthesised (`(P)[b]`).  A path used as a *function argument* must be flat (child/attribute/self
+parenthesised (`(P)[b]`).  After the repairs of `notFunc` and of `containsFunc`/`startwithFunc`/
+`endwithFunc` the fragment also holds `not(count(P))` (`not` of a number) and the string tests with
+a flat path in *second* position: `contains(P, Q)`, `contains('lit', Q)` ….  A path used as a *function argument* must be flat (child/attribute/self
 steps with any fragment predicates): the engine hands a function its result *sequence* (length,
 first element), the oracle the document-ordered *set*; they coincide exactly when the sequence is
 sorted and duplicate-free, which `FlatFiltered.flatAny_sorted` proves for flat paths.  Paths in
